@@ -1035,7 +1035,22 @@ func (r *Run) DoDisk(d *DiskOp) {
 		ls := splitKeep(b)
 		var idx []int
 		for i, l := range ls {
-			if bytes.Contains(l, []byte(`"`+id+`"`)) {
+			// only the pruned id's OWN events (create, updates, results, links
+			// with it as an endpoint, tombstone) - not other items' events that
+			// merely mention it, e.g. a task's successive epic assignments,
+			// whose mutual order is that task's history
+			var ev struct {
+				Data struct {
+					ID     string `json:"id"`
+					TaskID string `json:"task_id"`
+					From   string `json:"from_id"`
+					To     string `json:"to_id"`
+				} `json:"data"`
+			}
+			if json.Unmarshal(bytes.TrimSpace(l), &ev) != nil {
+				continue
+			}
+			if ev.Data.ID == id || ev.Data.TaskID == id || ev.Data.From == id || ev.Data.To == id {
 				idx = append(idx, i)
 			}
 		}
